@@ -3,6 +3,7 @@
 package dkg
 
 import (
+	"github.com/drand/drand/v2/crypto"
 	drand "github.com/drand/drand/v2/protobuf/dkg"
 )
 
@@ -16,3 +17,15 @@ func VerifMessageForSigning(beaconID string, packet *drand.GossipPacket, proposa
 
 // VerifTermsFromState is the terms reconstruction used when verifying a packet against a stored state.
 func VerifTermsFromState(s *DBState) *drand.ProposalTerms { return termsFromState(s) }
+
+// VerifBundleHash converts a wire bundle with the real conversion routine and returns the hash the protocol signs.
+func VerifBundleHash(p *drand.Packet, sch *crypto.Scheme) ([]byte, error) {
+	k, err := protoToDKGPacket(p, sch)
+	if err != nil {
+		return nil, err
+	}
+	return k.Hash(), nil
+}
+
+// VerifNonce is the session id of an epoch.
+func VerifNonce(epoch uint32) []byte { return nonceFor(&DBState{Epoch: epoch}) }
